@@ -114,6 +114,7 @@ type VC struct {
 	valDecisions map[string]int64 // forced values of split expressions (loop-level case splits)
 	decisions map[string]bool // forced truth values of opaque predicates (VC-level case split)
 	entry    *State
+	scaled   map[int][]string // index terms scaled by an element size (see scaleReg)
 	exhaustOnly bool // this VC only checks that the contract-level case splits cover the preconditions
 }
 
@@ -259,6 +260,9 @@ func (vc *VC) constrainSV(v *SV) {
 			}
 		case *types.Pointer:
 			vc.assume(and(app("bvsle", bvLit(64, 0), c[1]), app("bvslt", c[1], bvLit(64, 1<<40))))
+		case *types.Map, *types.Chan:
+			// maps and channels are whole objects (no interior references)
+			vc.assume(eq(c[1], bvLit(64, 0)))
 		case *types.Struct:
 			off := 0
 			for i := 0; i < u.NumFields(); i++ {
